@@ -346,23 +346,23 @@ func c28(r *core.Run) {
 
 	// ---- R3 recover sites that absorb a host failure (ExternalError arm, or an absorbing default) inside execution code
 	boundary := map[string]string{
-		"runtime.Recover":                        "runtime boundary: converts to the returned error (carries the host failure)",
-		"interpreter.(Interpreter).RecoverErrors": "interpreter boundary: hands the value to the error handler",
-		"bbq/vm.(VM).RecoverErrors":              "VM boundary: hands the value to the error handler",
-		"stdlib.nativeAccountContractsTryUpdateFunction": "documented exception of the property (contracts.tryUpdate)",
-		"runtime.(REPL).Accept":                  "REPL tooling boundary, reports the error",
-		"pretty.(ErrorPrettyPrinter).PrettyPrintError": "printer, not on an execution path",
-		"sema.(Checker).Check":                   "checker boundary: returns the error",
-		"parser.ParseTokenStream":                "parser boundary: returns the error",
-		"parser/lexer.(lexer).run":               "lexer boundary: error token",
-		"parser.defineLessThanOrTypeArgumentsExpression": "speculative parse replay; no host call inside the parser",
+		"runtime.Recover":                                    "runtime boundary: converts to the returned error (carries the host failure)",
+		"interpreter.(Interpreter).RecoverErrors":            "interpreter boundary: hands the value to the error handler",
+		"bbq/vm.(VM).RecoverErrors":                          "VM boundary: hands the value to the error handler",
+		"stdlib.nativeAccountContractsTryUpdateFunction":     "documented exception of the property (contracts.tryUpdate)",
+		"runtime.(REPL).Accept":                              "REPL tooling boundary, reports the error",
+		"pretty.(ErrorPrettyPrinter).PrettyPrintError":       "printer, not on an execution path",
+		"sema.(Checker).Check":                               "checker boundary: returns the error",
+		"parser.ParseTokenStream":                            "parser boundary: returns the error",
+		"parser/lexer.(lexer).run":                           "lexer boundary: error token",
+		"parser.defineLessThanOrTypeArgumentsExpression":     "speculative parse replay; no host call inside the parser",
 		"old_parser.defineLessThanOrTypeArgumentsExpression": "speculative parse replay; no host call inside the parser",
-		"old_parser/lexer.(lexer).run":           "lexer boundary: error token",
-		"encoding/ccf.(Decoder).Decode":          "codec boundary: returns the error",
-		"encoding/ccf.(Encoder).Encode":          "codec boundary: returns the error",
-		"encoding/json.(Decoder).Decode":         "codec boundary: returns the error",
-		"encoding/json.(Encoder).Encode":         "codec boundary: returns the error",
-		"runtime.UserPanicToError":               "absorbs only user errors (errors.As UserError); ExternalError is re-panicked in the type switch",
+		"old_parser/lexer.(lexer).run":                       "lexer boundary: error token",
+		"encoding/ccf.(Decoder).Decode":                      "codec boundary: returns the error",
+		"encoding/ccf.(Encoder).Encode":                      "codec boundary: returns the error",
+		"encoding/json.(Decoder).Decode":                     "codec boundary: returns the error",
+		"encoding/json.(Encoder).Encode":                     "codec boundary: returns the error",
+		"runtime.UserPanicToError":                           "absorbs only user errors (errors.As UserError); ExternalError is re-panicked in the type switch",
 	}
 	for _, s := range w.RecoverSites() {
 		k := core.SSAKey(s.Decl)
